@@ -25,34 +25,19 @@ Definition WFcore (n : bnv) : Prop :=
 Theorem wf_core d n : elab d = Ok n -> WFcore n.
 Proof. intro H. apply elab_inv in H. exact H. Qed.
 
-Definition no_blackbox (d : doc) : bool :=
-  match classify d with
-  | Ok ss => forallb (fun x => negb (is_blackbox_stmt x)) ss
-  | Error _ => true
-  end.
-
-Lemma elab_oinv d n : no_blackbox d = true -> elab d = Ok n -> Oinv (b_models n).
+Lemma elab_oinv d n : elab d = Ok n -> Oinv (b_models n).
 Proof.
-  unfold no_blackbox, elab, elab_stmts. intros Hb H. apply bind_ok in H as [ss [H1 H]]. rewrite H1 in Hb.
+  unfold elab, elab_stmts. intro H. apply bind_ok in H as [ss [H1 H]].
   apply bind_ok in H as [s [H2 H3]]. eapply finish_oinv; [|exact H3].
-  eapply exec_all_oinv; [exact Hb| |exact H2]. intros m [].
+  eapply exec_all_oinv; [|exact H2]. intros m [].
 Qed.
 
-Theorem wf_noblackbox d n : no_blackbox d = true -> elab d = Ok n -> WF n.
+(* well-formed and self-contained, for every document the reader accepts *)
+Theorem wf_all d n : elab d = Ok n -> WF n.
 Proof.
-  intros Hb H. pose proof (elab_oinv d n Hb H) as HO. apply elab_inv in H. destruct H as [Hnd Hall].
+  intro H. pose proof (elab_oinv d n H) as HO. apply elab_inv in H. destruct H as [Hnd Hall].
   split; [assumption|]. apply Forall_forall. intros m Hm. destruct (Hall m Hm) as [W1 W2 W3 W4 W5].
   constructor; auto. rewrite (HO m Hm). reflexivity.
-Qed.
-
-(* the self-containedness clause as a boolean, to refute it by computation *)
-Definition self_contained_b (n : bnv) : bool :=
-  forallb (fun m => match cable_pins (m_orphans m) with [] => true | _ => false end) (b_models n).
-
-Lemma WF_self_contained n : WF n -> self_contained_b n = true.
-Proof.
-  intros [_ HF]. unfold self_contained_b. apply forallb_forall. intros m Hm.
-  rewrite Forall_forall in HF. destruct (HF m Hm) as [_ _ _ _ _ Hs]. rewrite Hs. reflexivity.
 Qed.
 
 (* ---------- example documents ---------- *)
@@ -60,6 +45,7 @@ Module C18Docs.
 Import String.
 Local Open Scope string_scope.
 Definition nm_top : str := s2l "top".
+Definition i_ref_inv : str := s2l "INV".
 (* a flat design without black-box declarations: buses, unconn, .names, .latch, instance data *)
 Definition doc_flat : doc := D [
   "# example";
@@ -96,34 +82,29 @@ Definition is_ok {A} (r : result A) : bool := match r with Ok _ => true | Error 
 Lemma doc_flat_reads : is_ok (elab doc_flat) = true.
 Proof. vm_compute. reflexivity. Qed.
 
-Lemma doc_flat_no_blackbox : no_blackbox doc_flat = true.
-Proof. vm_compute. reflexivity. Qed.
-
 Lemma doc_flat_supported : supported doc_flat = true.
 Proof. vm_compute. reflexivity. Qed.
 
 Lemma doc_blackbox_supported : supported doc_blackbox = true.
 Proof. vm_compute. reflexivity. Qed.
 
-(* the hypotheses of wf_noblackbox are satisfiable by a non-trivial document *)
-Lemma wf_noblackbox_example : exists n, no_blackbox doc_flat = true /\ elab doc_flat = Ok n /\ WF n /\
+(* the hypothesis of wf_all is satisfiable by non-trivial documents, with and without black boxes *)
+Lemma wf_example : exists n, elab doc_flat = Ok n /\ WF n /\
   length (b_models n) = 5 /\ exists m, find_model nm_top (b_models n) = Some m /\ length (m_insts m) = 4.
 Proof.
-  destruct (elab doc_flat) as [n|e] eqn:E.
-  - exists n. split; [apply doc_flat_no_blackbox|]. split; [reflexivity|]. split.
-    + apply (wf_noblackbox doc_flat); [apply doc_flat_no_blackbox|exact E].
-    + revert E. vm_compute. intro E. inversion E; subst n. split; [reflexivity|]. eexists. split; reflexivity.
-  - pose proof doc_flat_reads as H. rewrite E in H. discriminate.
+  remember (elab doc_flat) as r eqn:Er. pose proof Er as Er'. vm_compute in Er. subst r.
+  eexists. split; [reflexivity|]. split.
+  - apply (wf_all doc_flat). symmetry. exact Er'.
+  - split; [reflexivity|]. eexists. split; reflexivity.
 Qed.
 
-(* ---------- refutation of self-containedness: .blackbox ---------- *)
-Lemma wf_refuted_by_blackbox :
-  exists d n, supported d = true /\ elab d = Ok n /\ ~ WF n.
+Lemma wf_example_blackbox : exists n m, elab doc_blackbox = Ok n /\ WF n /\
+  find_model (i_ref_inv) (b_models n) = Some m /\ m_lib m = LPrim /\ m_cables m = [] /\ length (m_ports m) = 2.
 Proof.
-  exists doc_blackbox. destruct (elab doc_blackbox) as [n|e] eqn:E.
-  - exists n. split; [apply doc_blackbox_supported|]. split; [reflexivity|].
-    intro HW. apply WF_self_contained in HW. revert E HW. vm_compute. intros E. inversion E; subst n. discriminate.
-  - exfalso. revert E. vm_compute. discriminate.
+  remember (elab doc_blackbox) as r eqn:Er. pose proof Er as Er'. vm_compute in Er. subst r.
+  eexists. eexists. split; [reflexivity|]. split.
+  - apply (wf_all doc_blackbox). symmetry. exact Er'.
+  - vm_compute. repeat split; reflexivity.
 Qed.
 
 (* ---------- refutation of write-then-read: the written file is rejected ---------- *)
@@ -183,7 +164,7 @@ Proof.
   eexists. split; [vm_compute; reflexivity|]. split; [reflexivity|].
   intros [ss [Hg [HF _]]].
   vm_compute in Hg. inversion Hg; subst ss. clear Hg.
-  vm_compute in HF. inversion HF as [|sec rest [Hsec _] _]; subst. destruct Hsec as [_ Hi _ _ _].
+  destruct (HF nm_top (or_introl eq_refl)) as [[_ Hi _ _ _] _].
   specialize (Hi _ eq_refl). vm_compute in Hi. discriminate.
 Qed.
 
@@ -203,11 +184,39 @@ Proof.
   eexists. split; [vm_compute; reflexivity|]. split; [reflexivity|].
   intros [ss [Hg [HF _]]].
   vm_compute in Hg. inversion Hg; subst ss. clear Hg.
-  cbn [sections_of split_sections b_models] in HF.
-  inversion HF as [|sec rest [Hsec _] _]; subst. destruct Hsec as [_ _ _ Hn _].
+  destruct (HF nm_top (or_introl eq_refl)) as [[_ _ _ Hn _] _].
   specialize (Hn eq_refl _ eq_refl (PTop [97%N] 0) (PInst 0 [73%N] 0)).
   destruct Hn as [_ Hn].
   match type of Hn with ?P -> _ => assert (HP : P) end.
   { exists ([97%N], 0), ([97%N], 0). vm_compute. split; [left; reflexivity|]. split; [right; right; left; reflexivity|]. left. reflexivity. }
   apply Hn in HP. apply same_wire_b_complete in HP. vm_compute in HP. discriminate.
+Qed.
+
+(* ---------- write-then-read on the example document (by computation) ---------- *)
+Definition inst_key (i : inst) : option str * str * ikind * list (str * str) * list (str * str) * list (str * option str) :=
+  (i_name i, i_ref i, i_kind i, i_attr i, i_param i, i_covers i).
+
+Definition ikind_eqb (a b : ikind) : bool :=
+  match a, b with KSub, KSub | KGate, KGate | KNames, KNames | KLatch, KLatch => true | _, _ => false end.
+
+Definition inst_same_b (i j : inst) : bool :=
+  ostr_eqb (i_name i) (i_name j) && str_eqb (i_ref i) (i_ref j) && ikind_eqb (i_kind i) (i_kind j) &&
+  Nat.eqb (length (i_attr i)) (length (i_attr j)) && Nat.eqb (length (i_param i)) (length (i_param j)) &&
+  Nat.eqb (length (i_covers i)) (length (i_covers j)).
+
+(* every instance of [m] has a counterpart of the same name, definition, kind and data sizes in [m'] *)
+Definition insts_covered_b (m m' : model) : bool :=
+  forallb (fun i => existsb (inst_same_b i) (m_insts m')) (m_insts m).
+
+Lemma roundtrip_example :
+  exists n n' m m', elab doc_flat = Ok n /\ elab (emit n) = Ok n' /\
+    find_model nm_top (b_models n) = Some m /\ find_model nm_top (b_models n') = Some m' /\
+    insts_covered_b m m' = true /\ insts_covered_b m' m = true /\
+    length (cable_pins (m_cables m)) = length (cable_pins (m_cables m')).
+Proof.
+  remember (elab doc_flat) as r eqn:Er. vm_compute in Er. subst r.
+  eexists. remember (elab (emit _)) as r' eqn:Er'. vm_compute in Er'. subst r'.
+  eexists. eexists. eexists. split; [reflexivity|]. split; [reflexivity|].
+  split; [vm_compute; reflexivity|]. split; [vm_compute; reflexivity|].
+  vm_compute. repeat split; reflexivity.
 Qed.
